@@ -84,6 +84,11 @@ def catalogue(tier="quick", backends=("hand", "tt", "jax")):
         orx = dict(r=3.0, m=1.0, beta=0.1)
         add("OgdenRoxburgh(NeoHooke)", lambda: fem.OgdenRoxburgh(fem.NeoHooke(mu=1.0, bulk=2.0), **orx), "hand", nstate=1, hyper=False,
             states=[("virgin", lambda n: _sv(1, n, 0.0)), ("softened", lambda n: _sv(1, n, 3.0))], scale=2.0)
+        # the same bodies in another stress unit (a kPa gel in a GPa unit system and the reverse): all moduli x s, energies x s
+        for s_ in (1e-9, 1e7):
+            add(f"NeoHooke(mu,bulk)*{s_:g}", lambda s_=s_: fem.NeoHooke(mu=1.3 * s_, bulk=4.1 * s_), "hand", energy=en(fem.NeoHooke(mu=1.3 * s_, bulk=4.1 * s_)), scale=4.1 * s_)
+            add(f"OgdenRoxburgh(NeoHooke)*{s_:g}", lambda s_=s_: fem.OgdenRoxburgh(fem.NeoHooke(mu=1.0 * s_, bulk=2.0 * s_), r=3.0, m=1.0 * s_, beta=0.1), "hand", nstate=1, hyper=False,
+                states=[("virgin", lambda n: _sv(1, n, 0.0)), ("softened", lambda n, s_=s_: _sv(1, n, 3.0 * s_))], scale=2.0 * s_)
         # small-strain laws (C03 only)
         add("LinearElastic", lambda: fem.LinearElastic(E=2.0, nu=0.3), "hand", finite=False, small=True, scale=2.0)
         add("LinearElasticTensorNotation", lambda: C.LinearElasticTensorNotation(E=2.0, nu=0.3), "hand", finite=False, small=True, scale=2.0)
